@@ -288,6 +288,11 @@ fn stage_main(beh: &str) -> ! {
         std::process::exit(code);
     }
     match beh {
+        "Z" => {
+            // an unrelated long-running process: touches none of its streams
+            std::thread::sleep(std::time::Duration::from_secs(30));
+            std::process::exit(0);
+        }
         "Y" => loop {
             if out.write_all(b"yyyyyyyyyyyyyyyyyyyyyyyyyyyyyyyyyyyyyyyyyyyyyyyyyyyyyyyyyyyyyyy\n").is_err() {
                 die();
